@@ -31,9 +31,8 @@ META = dict(
          "exact reduced pairs n/d (d <= 256) and coordinates, Den(post) = Den(pre) when denotable, the emitted text - read by an independent "
          "reader in the harness - is a well-formed document whose SPEC-side decoding is isomorphic to the input and which equals "
          "Encode(pre) up to naming (L1), exact-class scalars come back as the same ring element.",
-    note="'preserved exactly' is read as: the same number (four equal dyadic coefficients); that decoding multiplies by the float factor 1.0 "
-         "and thereby sets the `approx` provenance flag (Scalar4 == is then false although the value is identical) is counted in "
-         "trace_stats.approx_flag_set, not judged. Floating point is outside TLA+: 'to floating-point tolerance' is the harness's "
+    note="'preserved exactly' is read as Scalar4's own ==: four equal dyadic coefficients and no `approx` flag that the original did not "
+         "carry (decoding used to multiply by the float factor 1.0 and flag every scalar approximate: fixed in quizx, e15a797). Floating point is outside TLA+: 'to floating-point tolerance' is the harness's "
          "|decoded - original| <= 1e-9 |original| on complex doubles, for the decoded scalar and for an independent reading of the scalar "
          "fields. Coordinates are multiples of 0.1 compared at 0.1 (abs_ext) resp. 0.001 (document); the last-bit accuracy of serde_json's "
          "float parser and JSON byte syntax are not covered. Boolean variables on spiders, W nodes / w_io edges and Z-box labels are outside "
@@ -75,7 +74,7 @@ def plan(prop, tier, seed, t0):
                               "boolean variables on spiders (not encoded at all by the format code), W nodes, Z-box labels",
                               "documents written by other tools (parallel edges, hadamard-typed edges, boolean input flags): transcribed in "
                               "spec/JsonG.tla (DecodeWith) but not explored"],
-                "scalar_exact_means": "equal ring element; approx flag set by decoding is counted in trace_stats.approx_flag_set"}
+                "scalar_exact_means": "equal ring element and approx flag not newly set (Scalar4 ==)"}
 
     return run_plan(prop, tier, seed, t0, mcs, traces, "model_checking", assume,
                     "MC: every diagram of the family (<=2 spiders Z/X x 4 (thorough: 5) phases x both edge types x <=2 boundaries on N/H wires x optional "
